@@ -1,5 +1,5 @@
 (* C06 — Everything below the offset returned by Sync survives losing unsynced data (the log-file level). *)
-From KV Require Import Base Model Codec CodecProofs RecoverProofs Durable DurableProofs.
+From KV Require Import Base Model Codec CodecProofs RecoverProofs Durable DurableProofs RecoverCrash RecoverCrashProofs.
 
 (* power loss keeps some prefix of every file (at least the fsynced length).  For a clean log cut at ANY byte
    n at or after its header: Recover keeps exactly the records that lie entirely below the cut - a prefix of
@@ -101,3 +101,23 @@ Proof.
   - repeat constructor; cbn; lia.
   - reflexivity.
 Qed.
+
+(* ---------- the fsync discipline of Recover, Migrate and index.Write (RecoverCrash.v: their programs of file-system steps,
+   fsyncs included, compared with the FS tap of the real calls on every run of the C05/C07/C13/C17 byte-level checks).
+   A file is durable when every byte written to it has been fsynced; a rename carries the durability of its source to its
+   target.  If the segment's log file and index file are durable when the call starts, they are durable after EVERY step:
+   both calls write only to temporary files, fsync them, and rename them into place.  A power loss at any point therefore
+   cuts nothing from the files klevdb reads: what it leaves is one of the crash images of C05_recover_restartable /
+   C05_migrate_crash_safe, never a torn log or index file. *)
+Theorem C06_recover_keeps_live_files_durable :
+  forall crc H p base b idx prog stale_recover_tmp_durable stale_index_tmp_durable,
+  recover_prog crc H p base b idx = Ok prog ->
+  live_durable (mkS true stale_recover_tmp_durable true stale_index_tmp_durable) prog.
+Proof. exact recover_prog_live_files_durable. Qed.
+Print Assumptions C06_recover_keeps_live_files_durable.
+
+Theorem C06_migrate_keeps_live_files_durable :
+  forall crc H p base mv iv b prog r t,
+  migrate_prog crc H p base mv iv b = Ok prog -> live_durable (mkS true r true t) prog.
+Proof. exact migrate_prog_live_files_durable. Qed.
+Print Assumptions C06_migrate_keeps_live_files_durable.
